@@ -291,7 +291,7 @@ LIB = (1, 2, 1)
 GRID_VERSIONS = [[x, y, z] for x in (0, 1, 2) for y in (0, 1, 2, 3) for z in (0, 1, 2)] + \
     [[1, 2], [1, 2, 1, 0], []]
 GRID_IDS = ["valid", "invalid", "missing"]
-GRID_FORMATS = ["nix", "nox"]
+GRID_FORMATS = ["nix", "nox", "nixio", "nix ", "NIX", "ni", ""]
 
 
 def grid_expected(version, id_kind, fmt, mode):
